@@ -147,8 +147,7 @@ def _guard(run, P):
     run.do(c07.carry, run, P, "C03.guard")
     # the lowering the Fortran generator starts from (shared with C05)
     from . import c05
-    _alias(run, "C05.loops", "C03.guard", lambda: c05._loops(run, P))
-    _alias(run, "C05.cond", "C03.guard", lambda: c05._cond(run, P))
+    run.do(c05.lowering_table, run, P, "C03.guard")
     run.do(_templates, run, P)
 
 
